@@ -321,7 +321,21 @@ func (g *Gen) Modification(s *CPSession) *ModSpec {
 	switch kind {
 	case 0: // update the downlink FAR: new tunnel (handover) or buffering
 		f := *s.FAR(2)
-		switch g.c(3, "farupd") {
+		switch g.c(5, "farupd") {
+		case 3, 4:
+			// idle transition / gate that keeps the tunnel parameters in the FAR (Update
+			// Forwarding Parameters with Outer Header Creation are legal with any action)
+			if f.HasOHC && f.HasFwd {
+				f.EndMarker = false
+				if g.c(2, "keep-ohc-kind") == 0 {
+					f.Action, m.Tag = ActBUFF|ActNOCP, "uF:buffer-keeping-tunnel"
+				} else {
+					f.Action, m.Tag = ActDROP, "uF:drop-keeping-tunnel"
+				}
+			} else {
+				f = FARSpec{ID: 2, Action: ActDROP, DstIface: IfAccess, HasFwd: true}
+				m.Tag = "uF:drop"
+			}
 		case 0:
 			g.nextTEID++
 			f = FARSpec{ID: 2, Action: ActFORW, DstIface: IfAccess, HasFwd: true, HasOHC: true, TEID: g.nextTEID, PeerIP: g.gnbs[g.c(len(g.gnbs), "gnb")]}
